@@ -34,6 +34,8 @@ C == INSTANCE Canonical
 G == INSTANCE EventGrammar
 
 CONSTANTS Indents, Widths, LineBreaks, Encodings, Streams, ExplStart, ExplEnd, Versions, TagSets, Canon, Unicode, Apis,
+          TagSets2,       \* the tags of the documents AFTER the first: "same" (dump_all / serialize_all pass one tags option to every
+                          \* DocumentStartEvent) or another tag set (a caller of emit() gives every DocumentStartEvent its own)
           ScalarKinds,    \* subset of the kinds of Text below
           CollKinds,      \* subset of {"BS", "FS", "BM", "FM"}: block / flow sequence / mapping
           LongClasses,    \* long lexemes: character classes ("a", "v", "U", "x", "q") ...
@@ -45,6 +47,10 @@ CONSTANTS Indents, Widths, LineBreaks, Encodings, Streams, ExplStart, ExplEnd, V
           TagIds,         \* further explicit tags, named "p" \o "rel": related to the prefix p \in "1" ('!'), "2" ('tag:yaml.org,2002:'),
                           \* "X", "Y", "U" (the prefixes the tags option can declare) as rel \in "e" proper extension (p + 'foo'),
                           \* "q" EQUAL to it, "p" proper prefix of it (p without its last character); <<"-", "u">> unrelated
+          InnerAnchors,   \* BOOLEAN: with Anchors, EVERY new collection may carry an anchor (and be aliased later in its document)
+          Share,          \* BOOLEAN: the documents of one dump_all / serialize_all call may SHARE objects - a collection that was
+                          \* written in an earlier document occurs (the same object, not an equal one) in a later document
+          NodeBudget,     \* BOOLEAN: MaxEvents bounds the number of NODES of the stream (the other events are forced or close something)
           MaxEvents, MaxDepth, MaxDocs
 
 VARIABLES opt,            \* the options as the caller passed them
@@ -67,13 +73,16 @@ TagSeq(name)  == CASE name = "N"  -> <<>>
                    [] name = "T1" -> << <<"!x!", "tag:x.org,2002:">> >>
                    [] name = "T2" -> << <<"!x!", "tag:x.org,2002:">>, <<"!y!", "!local-">> >>     \* sorted(tags.keys())
                    [] name = "TU" -> << <<"!u!", "tag:U.org,2002:">> >>                          \* prefix with a non-ASCII character
+                   [] name = "R1" -> << <<"!", "tag:x.org,2002:">> >>                            \* REDEFINES the primary handle
+                   [] name = "R2" -> << <<"!!", "tag:x.org,2002:">> >>                           \* REDEFINES the secondary handle
 \* where the output goes: yaml.dump_all / serialize_all make a StringIO or (encoding given) a BytesIO; emit() always a StringIO
 Sink(o) == IF o.stream # "none" THEN o.stream ELSE IF o.api = "emit" \/ o.enc = "N" THEN "text" ELSE "binary"
 \* expect_stream_start: "if self.event.encoding and not hasattr(self.stream, 'encoding')"; CEmitter: dump_unicode
 EmitterEncoding(o) == IF o.enc # "N" /\ Sink(o) = "binary" THEN o.enc ELSE "N"
 \* the option record in the vocabulary of H
 HOpt(o) == [indent |-> o.indent, width |-> o.width, lb |-> o.lb, enc |-> o.enc, stream |-> o.stream, es |-> o.es, ee |-> o.ee,
-            ver |-> o.ver, tags |-> TagSeq(o.tags), canon |-> o.canon, au |-> o.au]
+            ver |-> o.ver, tags |-> IF o.tags2 = "same" THEN TagSeq(o.tags) ELSE <<>>,      \* no ONE tags option was given
+            canon |-> o.canon, au |-> o.au]
 
 (***************************************************************************)
 (* the LibYAML binding (CEmitter.__init__ / open / serialize in _yaml.pyx):*)
@@ -145,11 +154,15 @@ TagOfName(x) == CHOOSE id \in AllTagIds : id[1] \o id[2] = x
 PrefixStr(p) == CASE p = "1" -> "!" [] p = "2" -> "tag:yaml.org,2002:" [] p = "X" -> "tag:x.org,2002:" [] p = "Y" -> "!local-" [] p = "U" -> "tag:U.org,2002:"
 PrefixLen(p) == CASE p = "1" -> 1 [] p = "2" -> 18 [] p = "X" -> 15 [] p = "Y" -> 7 [] p = "U" -> 15
 PreStr(p)    == CASE p = "2" -> "tag:yaml.org,2002" [] p = "X" -> "tag:x.org,2002" [] p = "Y" -> "!local" [] p = "U" -> "tag:U.org,2002"
-HandleOf(p)  == CASE p = "1" -> "!" [] p = "2" -> "!!" [] p = "X" -> "!x!" [] p = "Y" -> "!y!" [] p = "U" -> "!u!"
-HandleLen(p) == IF p = "1" THEN 1 ELSE IF p = "2" THEN 2 ELSE 3
+\* the handle a prefix is abbreviated with ("self.tag_prefixes[prefix] = handle"; the tags option may give "!" or "!!" to its prefix)
+HandleOf(p, o)  == CASE p = "1" -> "!" [] p = "2" -> "!!" [] p = "Y" -> "!y!" [] p = "U" -> "!u!"
+                     [] p = "X" -> (CASE o.tags = "R1" -> "!" [] o.tags = "R2" -> "!!" [] OTHER -> "!x!")
+HandleLen(p, o) == IF p = "1" THEN 1 ELSE IF p = "2" THEN 2 ELSE IF p = "X" /\ o.tags = "R1" THEN 1 ELSE IF p = "X" /\ o.tags = "R2" THEN 2 ELSE 3
 Rank(p)      == CASE p = "1" -> 1 [] p = "Y" -> 2 [] p = "X" -> 3 [] p = "2" -> 4 [] p = "U" -> 5       \* sorted(self.tag_prefixes.keys())
-\* the prefixes in force in a document: the two defaults and what the tags option declares
-InForce(o) == {"1", "2"} \cup (CASE o.tags = "T1" -> {"X"} [] o.tags = "T2" -> {"X", "Y"} [] o.tags = "TU" -> {"U"} [] OTHER -> {})
+\* the prefixes in force in a document: the two defaults and what the tags option declares; a default whose handle the tags
+\* option gives to another prefix is retired ("del self.tag_prefixes[default]": '!!str' would be read back with the new prefix)
+InForce(o) == CASE o.tags = "R1" -> {"2", "X"} [] o.tags = "R2" -> {"1", "X"}
+                [] OTHER -> {"1", "2"} \cup (CASE o.tags = "T1" -> {"X"} [] o.tags = "T2" -> {"X", "Y"} [] o.tags = "TU" -> {"U"} [] OTHER -> {})
 AnchorLen == 6                                             \* "&id001"
 
 Analyze(t, au) ==
@@ -375,7 +388,9 @@ WriteFolded(r, t, bi, bw) ==
 (***************************************************************************)
 (* the emitter: events, queue, contexts                                    *)
 (***************************************************************************)
-NoEv == [k |-> "-", f |-> FALSE, s |-> "-", a |-> FALSE, t |-> FALSE, g |-> NoTag, n |-> 0, y |-> "P"]
+\* o: the IDENTITY of the object a collection event stands for (= the index in evs of the event that first wrote it; in a
+\* candidate 0 = a new object) and, for an alias, of the object it refers to
+NoEv == [k |-> "-", f |-> FALSE, s |-> "-", a |-> FALSE, t |-> FALSE, g |-> NoTag, n |-> 0, y |-> "P", o |-> 0]
 Event(k) == [NoEv EXCEPT !.k = k]
 IsColl(ev) == ev.k \in {"SequenceStart", "MappingStart"}
 IsCollEnd(ev) == ev.k \in {"SequenceEnd", "MappingEnd"}
@@ -425,7 +440,7 @@ PrepareTag(ev, o) ==
       P == CHOOSE x \in ms : \A y \in ms : Rank(y) <= Rank(x)
   IN  IF id = <<"1", "q">> THEN [h |-> "", sfx |-> "!", len |-> 1]                                   \* if tag == '!': return tag
       ELSE IF ms = {} THEN [h |-> "", sfx |-> FullTag(ev), len |-> 3 + FullLen(ev) + (IF id[1] = "U" THEN 5 ELSE 0)]   \* !<...>, non-ASCII %-escaped
-      ELSE IF P = id[1] THEN [h |-> HandleOf(P), sfx |-> TagName(ev), len |-> HandleLen(P) + 3]
+      ELSE IF P = id[1] THEN [h |-> HandleOf(P, o), sfx |-> TagName(ev), len |-> HandleLen(P, o) + 3]
       ELSE \* the primary handle '!' and a tag that begins with '!': '!local-foo', '!local-', '!local'
            [h |-> "!", sfx |-> CASE id[2] = "e" -> "local-" \o TagName(ev) [] id[2] = "q" -> "local-" [] OTHER -> "local", len |-> FullLen(ev)]
 \* the simple-key limit of the library's reader: a key whose ':' comes more than 1024 characters after its start (or on
@@ -437,7 +452,7 @@ WrittenBound(t, i, au) == IF i > Len(t) THEN 2 ELSE (IF Escaped(t[i], au) THEN E
 WrittenBoundOf(ev, au) == IF IsLong(ev) THEN 2 + ev.n * (IF Escaped(ev.s, au) THEN EscLen(ev.s) ELSE 1) ELSE WrittenBound(Text(ev.s), 1, au)
 CheckSimpleKey(r, ev, nx) ==
   LET len == (IF ev.a \/ ev.k = "Alias" THEN AnchorLen - 1 ELSE 0)
-             + (IF ev.k # "Alias" /\ HasTag(ev) THEN PrepareTag(ev, opt).len ELSE 0)
+             + (IF ev.k # "Alias" /\ HasTag(ev) THEN PrepareTag(ev, [tags |-> r.dtags]).len ELSE 0)
              + (IF ev.k = "Scalar" THEN Len(TextOf(ev)) ELSE 0)
       an == Analyze(AnalysisText(ev), r.au)
       written == IF ev.k = "Scalar" THEN len - Len(TextOf(ev)) + WrittenBoundOf(ev, r.au) ELSE len
@@ -453,9 +468,16 @@ ChooseScalarStyle(r, ev) ==
   ELSE IF req \in {"", "'"} /\ an.single /\ ~(r.skey /\ an.multiline) THEN "'"
   ELSE "\""
 
+\* anchors are named after the object (the Serializer's names id001, id002, ... have the same length up to id999).
+\* r.anchs: the anchors written in the document that is being written; r.badref: an alias was written whose anchor is not
+\* among them, or an anchor twice - what the composition stage of the library's reader rejects
+AnchorName(ev) == ToString(ev.o)
 ProcessAnchor(r, ev) ==
-  IF ev.k = "Alias" THEN Tok(Indicator(r, AnchorLen, TRUE, FALSE, FALSE), "ALIAS", "x", "")
-  ELSE IF ev.a THEN Tok(Indicator(r, AnchorLen, TRUE, FALSE, FALSE), "ANCHOR", "x", "")
+  IF ev.k = "Alias"
+  THEN [Tok(Indicator(r, AnchorLen, TRUE, FALSE, FALSE), "ALIAS", AnchorName(ev), "") EXCEPT !.badref = @ \/ ev.o \notin r.anchs]
+  ELSE IF ev.a
+  THEN [Tok(Indicator(r, AnchorLen, TRUE, FALSE, FALSE), "ANCHOR", AnchorName(ev), "")
+          EXCEPT !.badref = @ \/ ev.o \in r.anchs, !.anchs = @ \cup {ev.o}]
   ELSE r
 ProcessTag(r, ev) ==
   LET style == ChooseScalarStyle(r, ev)
@@ -464,7 +486,7 @@ ProcessTag(r, ev) ==
                ELSE (~r.canon \/ ~HasTag(ev)) /\ ~ev.t
   IN  IF elide THEN r
       ELSE IF HasTag(ev)
-      THEN LET pt == PrepareTag(ev, opt) IN
+      THEN LET pt == PrepareTag(ev, [tags |-> r.dtags]) IN
            \* a handle with nothing after it is not a tag the library's reader accepts ("expected URI")
            [Tok(Indicator(r, pt.len, TRUE, FALSE, FALSE), "TAG", pt.h, pt.sfx) EXCEPT !.badtag = @ \/ (pt.h # "" /\ pt.sfx = "")]
       ELSE Tok(Indicator(r, 1, TRUE, FALSE, FALSE), "TAG", "!", "")                                    \* tag = '!'
@@ -516,7 +538,9 @@ TagDirectives(r, tags, i) ==
                                     "TAG", tags[i][1], tags[i][2]), "BEST"), tags, i + 1)
 
 DocumentStart(r, first) ==
-  LET ev == Ev(r)  nx == Nxt(r)  tags == TagSeq(opt.tags) IN
+  LET ev == Ev(r)  nx == Nxt(r)
+      dtags == IF first \/ opt.tags2 = "same" THEN opt.tags ELSE opt.tags2        \* self.event.tags of THIS document
+      tags == TagSeq(dtags) IN
   IF ev.k = "DocumentStart"
   THEN LET r1 == IF (opt.ver # "N" \/ tags # <<>>) /\ r.open
                  THEN WriteIndent(Mark(Indicator(r, 3, TRUE, FALSE, FALSE), "DE", "", "")) ELSE r
@@ -527,7 +551,8 @@ DocumentStart(r, first) ==
            r4 == IF implicit THEN r3
                  ELSE LET r5 == Tok(Mark(Indicator(WriteIndent(r3), 3, TRUE, FALSE, FALSE), "DS", "", ""), "DS", "", "")
                       IN  IF r.canon THEN WriteIndent(r5) ELSE r5
-       IN  Goto(r4, "document_root")
+       \* self.tag_prefixes = DEFAULT_TAG_PREFIXES.copy() + this document's tags: the prefixes in force are per document
+       IN  Goto([r4 EXCEPT !.anchs = {}, !.dtags = dtags], "document_root")                               \* anchors are per document
   ELSE LET r1 == IF r.open THEN WriteIndent(Mark(Indicator(r, 3, TRUE, FALSE, FALSE), "DE", "", "")) ELSE r     \* StreamEndEvent
        IN  Goto(r1, "nothing")
 
@@ -589,17 +614,49 @@ BlockMappingValue(r) ==
 (***************************************************************************)
 (* the environment: a grammatical event stream, chosen one event at a time *)
 (***************************************************************************)
+
+(***************************************************************************)
+(* The documents of one dump_all / serialize_all call may share objects.  What the Representer and the Serializer make of  *)
+(* an object is decided per DOCUMENT:                                                                                      *)
+(*   BaseRepresenter.represent():  ... self.serialize(node); self.represented_objects = {}; self.object_keeper = []      *)
+(*   Serializer.serialize():       ... DocumentEndEvent; self.serialized_nodes = {}; self.anchors = {}; last_anchor_id = 0 *)
+(*   Serializer.serialize_node():  if node in self.serialized_nodes: AliasEvent(self.anchors[node])                        *)
+(*                                 else: serialized_nodes[node] = True; <the node's events, anchor = self.anchors[node]>   *)
+(* gen.ser   = the objects in serialized_nodes (written in the current document),                                           *)
+(* gen.anchd = those of them whose anchors[node] is not None (anchor_node met them twice in this document).                *)
+(* An object of an earlier document that occurs in the current one is therefore WRITTEN AGAIN (the events of its subtree,  *)
+(* one Feed step each, forced: gen.copy); an object already written in the current document is an ALIAS, which the         *)
+(* Serializer can only produce when the object carries an anchor.                                                           *)
+(***************************************************************************)
 Top(g) == Last(g.mon)
+RECURSIVE EndIdx(_, _, _)
+EndIdx(s, i, lv) == IF IsColl(s[i]) THEN EndIdx(s, i + 1, lv + 1)
+                    ELSE IF IsCollEnd(s[i]) THEN (IF lv = 1 THEN i ELSE EndIdx(s, i + 1, lv - 1))
+                    ELSE EndIdx(s, i + 1, lv)
+EndOf(s, x) == EndIdx(s, x + 1, 1)                          \* the event that closes the collection opened by s[x]
+Subtree(s, x) == SubSeq(s, x, EndOf(s, x))
+ObjsIn(s, x) == {s[i].o : i \in {j \in x .. EndOf(s, x) : IsColl(s[j])}}
+AliasesIn(s, x) == {s[i].o : i \in {j \in x .. EndOf(s, x) : s[j].k = "Alias"}}
+\* the objects of earlier documents that can occur here: nothing of them has been written in this document yet (otherwise
+\* the Serializer would write an alias in the middle of them) and their aliases refer to objects inside them
+Shareable(g) == IF ~Share THEN {}
+                ELSE {x \in DOMAIN evs : /\ IsColl(evs[x]) /\ evs[x].o = x /\ x \notin g.ser
+                                         /\ ObjsIn(evs, x) \cap g.ser = {}
+                                         /\ AliasesIn(evs, x) \subseteq ObjsIn(evs, x)}
+\* the first event of an object that is written again; it carries an anchor when it refers to itself, and may when Anchors
+Again(g) == UNION {{[evs[x] EXCEPT !.a = a] : a \in (IF x \in AliasesIn(evs, x) THEN {TRUE} ELSE IF Anchors THEN BOOLEAN ELSE {FALSE})}
+                   : x \in Shareable(g)}
 NodeEvents(g) ==
   LET first == Top(g) = "D0"                           \* the root node: may carry the document's anchor
-      as == IF Anchors /\ first THEN BOOLEAN ELSE {FALSE}
+      as == IF Anchors /\ (first \/ InnerAnchors) THEN BOOLEAN ELSE {FALSE}
       gs == {NoTag} \cup (IF ExplicitTags THEN {<<"2", "e">>} ELSE {}) \cup {TagOfName(x) : x \in TagIds}
-  IN  {[k |-> "Scalar", f |-> FALSE, s |-> s, a |-> FALSE, t |-> tg # NoTag, g |-> tg, n |-> 0, y |-> "P"] : s \in ScalarKinds \ {"z"}, tg \in gs}
-      \cup {[k |-> "Scalar", f |-> FALSE, s |-> "z", a |-> FALSE, t |-> FALSE, g |-> NoTag, n |-> 0, y |-> "P"] : s \in ScalarKinds \cap {"z"}}
-      \cup {[k |-> "Scalar", f |-> FALSE, s |-> c, a |-> FALSE, t |-> tg # NoTag, g |-> tg, n |-> n, y |-> y] : c \in LongClasses, n \in LongLens, y \in LongStyles, tg \in gs}
-      \cup (IF g.anch THEN {Event("Alias")} ELSE {})
+  IN  {[k |-> "Scalar", f |-> FALSE, s |-> s, a |-> FALSE, t |-> tg # NoTag, g |-> tg, n |-> 0, y |-> "P", o |-> 0] : s \in ScalarKinds \ {"z"}, tg \in gs}
+      \cup {[k |-> "Scalar", f |-> FALSE, s |-> "z", a |-> FALSE, t |-> FALSE, g |-> NoTag, n |-> 0, y |-> "P", o |-> 0] : s \in ScalarKinds \cap {"z"}}
+      \cup {[k |-> "Scalar", f |-> FALSE, s |-> c, a |-> FALSE, t |-> tg # NoTag, g |-> tg, n |-> n, y |-> y, o |-> 0] : c \in LongClasses, n \in LongLens, y \in LongStyles, tg \in gs}
+      \cup {[Event("Alias") EXCEPT !.o = x] : x \in g.anchd}
       \cup (IF Len(g.mon) - 2 >= MaxDepth THEN {}
-            ELSE {[k |-> IF c \in {"BS", "FS"} THEN "SequenceStart" ELSE "MappingStart", f |-> c \in {"FS", "FM"}, s |-> "-", a |-> a, t |-> tg # NoTag, g |-> tg, n |-> 0, y |-> "P"]
+            ELSE Again(g) \cup
+                 {[k |-> IF c \in {"BS", "FS"} THEN "SequenceStart" ELSE "MappingStart", f |-> c \in {"FS", "FM"}, s |-> "-", a |-> a, t |-> tg # NoTag, g |-> tg, n |-> 0, y |-> "P", o |-> 0]
                   : c \in CollKinds, a \in as, tg \in gs})
 Closing(g) == CASE Top(g) = "S"  -> {Event("StreamEnd")}
                 [] Top(g) = "D0" -> {[Event("Scalar") EXCEPT !.s = "w"]}
@@ -609,6 +666,7 @@ Closing(g) == CASE Top(g) = "S"  -> {Event("StreamEnd")}
                 [] Top(g) = "M1" -> {[Event("Scalar") EXCEPT !.s = "w"]}
 Candidates(g) ==
   IF g.mon = <<"END">> THEN {}
+  ELSE IF g.copy # <<>> THEN {Head(g.copy)}
   ELSE IF g.n >= MaxEvents THEN Closing(g)
   ELSE CASE Top(g) = "S"  -> (IF g.docs < MaxDocs THEN {Event("DocumentStart")} ELSE {}) \cup (IF g.docs > 0 THEN {Event("StreamEnd")} ELSE {})
          [] Top(g) = "D0" -> NodeEvents(g)
@@ -619,11 +677,21 @@ Candidates(g) ==
 
 Feed ==
   /\ em.st # "stream_start" /\ NeedMore(em.q) /\ ~em.crash
-  /\ \E e \in Candidates(gen) :
+  /\ \E c \in Candidates(gen) :
+       LET e == IF IsColl(c) /\ c.o = 0 THEN [c EXCEPT !.o = Len(evs) + 1] ELSE c          \* a new object
+           again == gen.copy = <<>> /\ IsColl(c) /\ c.o # 0                                \* an object of an earlier document
+           rest == IF gen.copy # <<>> THEN Tail(gen.copy) ELSE IF again THEN Tail(Subtree(evs, c.o)) ELSE <<>>
+           endDoc == e.k = "DocumentEnd"
+       IN
        /\ em' = [em EXCEPT !.q = Append(@, e), !.act = "Feed"]
-       /\ gen' = [mon |-> G!MonStep(gen.mon, e.k), n |-> gen.n + 1,
+       /\ gen' = [mon |-> G!MonStep(gen.mon, e.k),
+                  \* an object written again is ONE choice; NodeBudget: only nodes count (scalar, alias, collection, object again)
+                  n |-> IF gen.copy # <<>> \/ (NodeBudget /\ (IsCollEnd(e) \/ e.k \in {"DocumentStart", "DocumentEnd", "StreamEnd"}))
+                        THEN gen.n ELSE gen.n + 1,
                   docs |-> IF e.k = "DocumentStart" THEN gen.docs + 1 ELSE gen.docs,
-                  anch |-> IF e.k = "DocumentStart" THEN FALSE ELSE IF Top(gen) = "D0" THEN e.a ELSE gen.anch]
+                  ser |-> IF endDoc THEN {} ELSE IF IsColl(e) THEN gen.ser \cup {e.o} ELSE gen.ser,
+                  anchd |-> IF endDoc THEN {} ELSE IF IsColl(e) /\ e.a THEN gen.anchd \cup {e.o} ELSE gen.anchd,
+                  copy |-> rest]
        /\ evs' = Append(evs, e)
   /\ UNCHANGED opt
 
@@ -652,9 +720,10 @@ ABlockMappingValue == Ready("block_mapping_value") /\ Apply(BlockMappingValue(em
 Dec(S) == {IF x = 100 THEN -1 ELSE x : x \in S}
 Options ==
   {o \in [indent : Dec(Indents), width : Dec(Widths), lb : LineBreaks, enc : Encodings, stream : Streams, es : ExplStart, ee : ExplEnd,
-          ver : Versions, tags : TagSets, canon : Canon, au : Unicode, api : Apis] :
+          ver : Versions, tags : TagSets, tags2 : TagSets2, canon : Canon, au : Unicode, api : Apis] :
      /\ o.stream = "binary" => o.enc # "N"                       \* str chunks into a bytes stream: the caller's error
      /\ (o.api = "emit" /\ o.stream # "binary") => o.enc = "N"   \* emit() has no encoding option
+     /\ o.tags2 # "same" => (o.api = "emit" /\ o.tags2 # o.tags)  \* only emit() takes the tags per document
   }
 
 Init == /\ opt \in Options
@@ -663,8 +732,8 @@ Init == /\ opt \in Options
                  line |-> 0, col |-> 0, ws |-> TRUE, indn |-> TRUE, open |-> FALSE,
                  bi |-> BestIndent(opt), bw |-> BestWidth(opt), canon |-> opt.canon, au |-> opt.au,
                  enc |-> "N", bom |-> "none", cur |-> NewLine, lines |-> <<>>, entries |-> <<>>, marks |-> <<>>, ctoks |-> <<>>,
-                 kcol |-> 0, kline |-> 0, skeys |-> <<>>, badtag |-> FALSE, crash |-> FALSE, act |-> "-"]
-        /\ gen = [mon |-> <<"S">>, n |-> 0, docs |-> 0, anch |-> FALSE]
+                 kcol |-> 0, kline |-> 0, skeys |-> <<>>, badtag |-> FALSE, dtags |-> "N", anchs |-> {}, badref |-> FALSE, crash |-> FALSE, act |-> "-"]
+        /\ gen = [mon |-> <<"S">>, n |-> 0, docs |-> 0, ser |-> {}, anchd |-> {}, copy |-> <<>>]
         /\ evs = <<>>
 
 Next == \/ Feed \/ AStreamStart \/ AFirstDocumentStart \/ ADocumentStart \/ ADocumentRoot \/ ADocumentEnd
@@ -686,7 +755,8 @@ Rendered(r) ==
   IN  IF r.cur.started \/ r.cur.ind > 0 THEN Append(ls, [ind |-> r.cur.ind, brk |-> "EOF", cls |-> r.cur.cls]) ELSE ls
 Obs == [outcome |-> IF em.crash THEN "exception" ELSE "ok",
         rtype |-> IF em.enc = "N" THEN "str" ELSE "bytes", decodes |-> TRUE, bom |-> em.bom,
-        lines |-> Rendered(em), entries |-> em.entries, marks |-> em.marks, ndocs |-> gen.docs, reread |-> <<>>]
+        lines |-> Rendered(em), entries |-> em.entries, marks |-> em.marks, ndocs |-> gen.docs, reread |-> <<>>,
+        refs |-> <<>>, recompose |-> <<>>]
 HO == HOpt(opt)
 
 NoCrash == ~em.crash
@@ -705,7 +775,7 @@ Wanted ==
   LET s == SelectSeq(evs, LAMBDA e : e.k # "StreamEnd")
   IN  [i \in DOMAIN s |->
         LET e == s[i] IN
-        [k |-> e.k, a |-> IF e.a \/ e.k = "Alias" THEN "x" ELSE "",
+        [k |-> e.k, a |-> IF e.a \/ e.k = "Alias" THEN AnchorName(e) ELSE "",
          t |-> IF e.k \in {"Scalar", "SequenceStart", "MappingStart"} /\ HasTag(e) THEN FullTag(e) ELSE "",
          v |-> IF e.k = "Scalar" THEN (IF IsLong(e) THEN <<e.s, e.n>> ELSE e.s) ELSE ""]]
 HG == (Done /\ opt.canon) => C!Denotes(em.ctoks, Wanted)
@@ -720,5 +790,9 @@ KeysReadable == \A i \in DOMAIN em.skeys : em.skeys[i].same /\ em.skeys[i].len <
 HA == FixD12 => KeysReadable
 \* ... and every tag L writes is one the reader can read: never a handle with an empty suffix
 HT == ~em.badtag
+\* ... and every alias L writes has its anchor earlier in the SAME document, no anchor twice in a document (what the
+\* composition stage of the reader demands).  It holds because serialized_nodes / anchors are emptied with every document:
+\* without the reset of gen.ser an object of an earlier document would be written as a bare alias.
+HR == ~em.badref
 Complete == Done => (em.states = <<>> /\ em.indents = <<>> /\ em.indent = -1 /\ em.flow = 0 /\ gen.mon = <<"END">>)
 =============================================================================
